@@ -239,6 +239,36 @@ impl Prop for C14 {
                 }
             }
         }
+        // every sequence of three calls over {simple, extended} x {seed A, seed B}: each answer equals the reference
+        // (state kept between calls of different variants / seeds would show here)
+        {
+            let pairs: Vec<(&Vec<u8>, &Vec<u8>)> = ss.iter().zip(ss.iter().skip(1)).step_by((ss.len() / 4).max(1)).take(4).collect();
+            for (a, b) in pairs {
+                let refs = [ref_seeded(a), ref_seeded(b)];
+                for code in 0..64u32 {
+                    let calls = [code & 3, (code >> 2) & 3, (code >> 4) & 3];
+                    let r = guard(|| {
+                        let mut bad = None;
+                        for (k, c) in calls.iter().enumerate() {
+                            let which = (c & 1) as usize;
+                            let seed = if which == 0 { a } else { b };
+                            if c & 2 == 0 {
+                                let (s, cm) = seeded_keygen(seed);
+                                if from_fr(&s) != refs[which].0 .0 || from_fr(&cm) != refs[which].0 .1 { bad = Some(k); break; }
+                            } else {
+                                let (t, n, s, cm) = extended_seeded_keygen(seed);
+                                let w = &refs[which].1;
+                                if from_fr(&t) != w.0 || from_fr(&n) != w.1 || from_fr(&s) != w.2 || from_fr(&cm) != w.3 { bad = Some(k); break; }
+                            }
+                        }
+                        bad
+                    });
+                    if !matches!(r, Ok(None)) {
+                        findings.report(Discrepancy { key: "C14/seeded_keygen/depends-on-earlier-calls".into(), case: json!({"kind":"sequence","a":hex(a),"b":hex(b),"calls":calls}), detail: format!("in the call sequence {:?} (bit 0: seed A/B, bit 1: simple/extended) an answer differs from the reference derivation of its seed", calls) });
+                    }
+                }
+            }
+        }
         let n_unseeded = if q { 1024 } else { 8192 };
         let idx: Vec<usize> = (0..n_unseeded).collect();
         let ures = par_map(&idx, 4, |_, k| self.unseeded(k % 3));
